@@ -362,3 +362,36 @@ pub fn on_fresh_thread_with_stack<T: Send + 'static>(stack: usize, f: impl FnOnc
         .join()
         .expect("harness thread panicked outside guarded()")
 }
+
+/// Points fd 1 at /dev/null until dropped: evaluated programs that call display / newline write to
+/// the process's stdout, which must not pollute (or forge lines of) the check's own report.
+pub struct StdoutSilencer {
+    saved: i32,
+}
+impl StdoutSilencer {
+    pub fn new() -> StdoutSilencer {
+        use std::io::Write;
+        let _ = std::io::stdout().flush();
+        unsafe {
+            let saved = libc::dup(1);
+            let devnull = libc::open(b"/dev/null\0".as_ptr() as *const libc::c_char, libc::O_WRONLY);
+            if devnull >= 0 {
+                libc::dup2(devnull, 1);
+                libc::close(devnull);
+            }
+            StdoutSilencer { saved }
+        }
+    }
+}
+impl Drop for StdoutSilencer {
+    fn drop(&mut self) {
+        use std::io::Write;
+        let _ = std::io::stdout().flush();
+        unsafe {
+            if self.saved >= 0 {
+                libc::dup2(self.saved, 1);
+                libc::close(self.saved);
+            }
+        }
+    }
+}
